@@ -317,6 +317,8 @@ def gen_case(rng, big=False):
     if case["op"] in ("tree", "kruskal") and rng.random() < 0.02:
         n_el = {"edge": nv, "face": nf, "cell": nc}[case["kind"]]
         case["root"] = n_el + rng.randrange(3)   # not an element: the constructor / compute must raise
+    elif case["op"] in ("tree", "kruskal") and rng.random() < 0.03:
+        case["root"] = None                      # the constructor draws the root itself
     return case
 
 
@@ -382,11 +384,17 @@ EMPTY_OBS = {"parent": [], "children": [], "edges": [], "bfs": [], "dfs": []}
 KIND = {"edge": "KEdge", "face": "KFace", "cell": "KCell"}
 
 
+def eff_root(case, res):
+    """the root: given, or (starting element None) the one the constructor drew at random"""
+    r = case.get("root")
+    return res.get("root") if r is None else r
+
+
 def tree_term(case, res):
     cfg = "(mkCfg %s %s %s %s)" % (KIND[case["kind"]], coq_bool(case.get("excl") is not None),
                                    coq_bool(bool(case.get("avoid_boundary", False))), coq_bool(res["polyline"]))
     err = res["err"] is not None
-    return "(mkTC %s %s %d %s %s)" % (cfg, raw_term(res["raw"]), case["root"], coq_bool(err),
+    return "(mkTC %s %s %d %s %s)" % (cfg, raw_term(res["raw"]), eff_root(case, res) if not err else (case["root"] or 0), coq_bool(err),
                                       tobs_term(EMPTY_OBS if err else res))
 
 
@@ -415,7 +423,7 @@ def kruskal_term(case, res):
         res["n"], plist(res["edges_tab"]), "[" + "; ".join(coq_bool(b) for b in res["bord"]) + "]",
         "[" + "; ".join(zlit(x) for x in sq) + "]", "[" + "; ".join(zlit(x) for x in cust) + "]",
         coq_bool(w == "one"), coq_bool(w == "length"), coq_bool(bool(case.get("avoid_boundary", False))),
-        coq_bool(res["polyline"]), case["root"])
+        coq_bool(res["polyline"]), eff_root(case, res) if res["err"] is None else (case["root"] or 0))
     err = res["err"] is not None
     return "(mkKC %s %s %s)" % (ki, coq_bool(err), tobs_term(EMPTY_OBS if err else res))
 
@@ -554,6 +562,26 @@ def check_table_and_traverse(n, root, reach, o, need_depth=None, adj=None):
             if b is not None and b not in seen:
                 return "traverse(%s) yields %d before its parent %d" % (order, a, b)
             seen.add(a)
+        # the two orders are what their names say: BFS = level by level, DFS = each new element hangs below the
+        # previous one or below one of its ancestors (pre-order)
+        def depth(x):
+            d = 0
+            while par[x] is not None and d <= n:
+                x = par[x]
+                d += 1
+            return d
+        if order == "bfs":
+            ds = [depth(a) for a, _ in out]
+            if any(ds[i] > ds[i + 1] for i in range(len(ds) - 1)):
+                return "traverse(BFS) is not level by level: depths %s" % ds
+        else:
+            for (x, _), (a, b) in zip(out, out[1:]):
+                anc = {x}
+                while par[x] is not None and len(anc) <= n:
+                    x = par[x]
+                    anc.add(x)
+                if b not in anc:
+                    return "traverse(DFS) is not a pre-order: %d (child of %s) follows %d" % (a, b, out[[k for k, _ in out].index(a) - 1][0])
     return None
 
 
@@ -577,7 +605,12 @@ def oracle(case, res):
     if "crash" in res:
         return "implementation crashed: " + res["crash"]
     n_el = {"edge": len(case["mesh"]["V"]), "face": len(res.get("faces_tab", [])), "cell": len(res.get("cells_tab", []))}[case["kind"]]
-    if case["op"] in ("tree", "kruskal"):
+    if case["op"] in ("tree", "kruskal") and case.get("root") is None:
+        if res["err"] is not None:
+            return "no starting element given: construction failed with " + res["err"]
+        if not (0 <= res["root"] < n_el):
+            return "no starting element given: the root drawn (%s) is not an element" % res["root"]
+    elif case["op"] in ("tree", "kruskal"):
         bad_root = not (0 <= case["root"] < n_el)
         if bad_root:
             return None if res["err"] is not None else "a root that is not an element was accepted"
@@ -585,7 +618,7 @@ def oracle(case, res):
             return "valid root rejected with " + res["err"]
     adj = oracle_graph(case, res)
     if case["op"] == "tree":
-        return oracle_tree_obs(case, res, res, case["root"], adj)
+        return oracle_tree_obs(case, res, res, eff_root(case, res), adj)
     if case["op"] == "forest":
         comp = components(adj)
         ncomp = len(set(comp.values()))
@@ -669,7 +702,7 @@ def oracle(case, res):
     got = sum(wt[eid[e]] for e in T)
     if abs(got - best) > 1e-9 * (1 + abs(best)):
         return "edge list weighs %r, the minimum spanning forest weighs %r" % (got, best)
-    root = case["root"]
+    root = eff_root(case, res)
     reach = set(hop_dist(tadj, root))
     return check_table_and_traverse(n, root, reach, res, need_depth=None, adj=tadj)
 
@@ -685,7 +718,7 @@ def same_class(m0, m1):
     return True
 
 
-def shrink_case(case, msg, max_rounds=30):
+def shrink_case(case, msg, max_rounds=14):
     """greedy one-element deletions (cells / faces / edges / exclusion ids), one driver batch per round;
     a candidate is kept only if the oracle still rejects it for the same kind of reason"""
     cur = json.loads(json.dumps(case))
@@ -698,7 +731,7 @@ def shrink_case(case, msg, max_rounds=30):
             for i in range(len(L)):
                 c = json.loads(json.dumps(cur))
                 del c["mesh"][key][i]
-                if c["op"] == "tree" and c["kind"] in ("face", "cell") and key == ("F" if c["kind"] == "face" else "C"):
+                if c["op"] == "tree" and c.get("root") is not None and c["kind"] in ("face", "cell") and key == ("F" if c["kind"] == "face" else "C"):
                     if c["root"] == i:
                         continue
                     if c["root"] > i:
@@ -716,7 +749,7 @@ def shrink_case(case, msg, max_rounds=30):
             break
         cands = cands[:80]
         try:
-            rs = core.run_impl(DRIVER, {"cases": cands, "case_timeout": 20}, timeout=600)["results"]
+            rs = core.run_impl(DRIVER, {"cases": cands, "case_timeout": 60}, timeout=900)["results"]
         except Exception:
             break
         nxt = None
@@ -739,7 +772,7 @@ def run_one(case, timeout=120):
 
 
 def classify(case, msg):
-    return "%s/%s/%s" % (case["op"], case["kind"], msg.split(" ")[0] if msg else "?")
+    return "%s/%s" % (case["op"], case["kind"])
 
 
 # ====================================================================== the check
@@ -777,14 +810,41 @@ def run(ctx):
     big = not quick
     cases += [gen_case(ctx.rng, big and k % 10 == 0) for k in range(n_rand)]
     cases += all_roots_cases(ctx.rng, n_roots)
+    if not quick:
+        # support only (bounded): every graph on <= 4 vertices as a polyline, every root
+        for nvx in range(1, 5):
+            pairs = [(a, b2) for a in range(nvx) for b2 in range(a + 1, nvx)]
+            for mask in range(1 << len(pairs)):
+                E = [list(pq) for k, pq in enumerate(pairs) if mask >> k & 1]
+                mesh = {"type": "polyline", "V": [[k, k * k, 0] for k in range(nvx)], "E": E, "F": [], "C": [],
+                        "shape": "polyline/exhaustive<=4"}
+                cases.append({"mesh": mesh, "what": "edge_forest", "op": "forest", "kind": "edge", "excl": None})
+                for r in range(nvx):
+                    cases.append({"mesh": mesh, "what": "edge_tree", "op": "tree", "kind": "edge", "root": r,
+                                  "avoid_boundary": False, "excl": None})
+                    cases.append({"mesh": mesh, "what": "kruskal", "op": "kruskal", "kind": "edge", "root": r,
+                                  "avoid_boundary": False, "weights": "length"})
 
     nsh = max(1, min(core.NCPU, len(cases) // 40))
-    payloads = [{"cases": cases[i::nsh], "case_timeout": 30} for i in range(nsh)]
+    payloads = [{"cases": cases[i::nsh], "case_timeout": 90} for i in range(nsh)]
     results = core.run_impl_parallel(DRIVER, payloads, timeout=1500)
     obs = [None] * len(cases)
     for i, r in enumerate(results):
         for j, o in zip(range(i, len(cases), nsh), r["results"]):
             obs[j] = o
+
+    # a crash / timeout inside a shared shard can be an artefact of machine load: re-run such cases alone, generously
+    for idx, o in enumerate(obs):
+        if o is None or "crash" in o:
+            for attempt in range(2):
+                try:
+                    o2 = core.run_impl(DRIVER, {"cases": [cases[idx]], "case_timeout": 240}, timeout=400)["results"][0]
+                except Exception as ex:  # noqa
+                    o2 = {"op": cases[idx]["op"], "kind": cases[idx]["kind"], "crash": "driver failed: %r" % ex}
+                obs[idx] = o2
+                if "crash" not in o2:
+                    break
+            ctx.count("re-run alone after a crash/timeout in a shard")
 
     # ---- bookkeeping + oracle (search for a concrete failing input)
     fails = []
@@ -811,6 +871,8 @@ def run(ctx):
             else:
                 nontriv = len(o["bfs"]) >= 3
                 ctx.count("reached whole mesh" if len(o["bfs"]) == n_el else "reached a proper part")
+        if c["op"] in ("tree", "kruskal") and c.get("root") is None:
+            ctx.count("root drawn by the constructor")
         ctx.case_seen([c["mesh"]["V"], c["mesh"]["E"], c["mesh"]["F"], c["mesh"]["C"], c["op"], c["kind"], c.get("root"),
                        c.get("excl"), c.get("avoid_boundary"), c.get("weights") if isinstance(c.get("weights"), str) else "custom"],
                       nontrivial=nontriv,
@@ -843,10 +905,10 @@ def run(ctx):
 
     # ---- verdicts
     reported = set()
-    for idx, msg in fails[:100]:
+    for idx, msg in fails[:200]:
         case = cases[idx]
         key = classify(case, msg)
-        if key in reported:
+        if key in reported or len(reported) >= 3:      # a few minimised witnesses are enough; the count is in the evidence
             continue
         reported.add(key)
 
